@@ -643,7 +643,7 @@ def run(ctx):
                         "real fcntl behaviour is sampled by the second-process probe and the multi-process rounds",
                         "threads sharing a handle and nested sessions on one path in one process are outside the property"]
     work = ctx.scratch
-    ctx.proof(props=["Molli.Props.C04", "Molli.Props.C04Kill"], gen=["Sessions", "UkvLayout"])
+    ctx.proof(props=["Molli.Props.C04", "Molli.Props.C04Kill", "Molli.Props.C04Torn"], gen=["Sessions", "UkvLayout"])
 
     probe = sesslib.Probe(work)
     lines, impls = [], []
